@@ -191,6 +191,11 @@ func init() {
 	Register(&PropDef{ID: "C06chain", Profile: func(tier string, r *Rng) Profile {
 		p := oracleProfile("c06-chain")
 		p.Fragments = []string{"modeSpec", "modeRounds"}
+		if r.Pick(3) == 0 {
+			// a deposit round that is reported again exactly at its expiry height (a new round is opened while the old one
+			// still waits for this block's aggregation), followed by ordinary rounds (after C06-j: round ids handed out twice)
+			p.Fragments = []string{"depositExpiry", "modeSpec", "modeRounds"}
+		}
 		p.W["submit"], p.W["tip"] = 40, 18
 		return p
 	},
